@@ -91,7 +91,7 @@ PtrInfo classify(const void* p, Task* t, OpRec* rec) {
         Task* x = &tasks[i];
         if (b >= x->stack_lo && b < x->stack_lo + x->stack_size) { r.cls = (x == t) ? PC_STACK : PC_STACK_OTHER; r.id = i; return r; }
     }
-    for (auto& bl : E.blocks) if (b >= bl.p && b < bl.p + (bl.size ? bl.size : 1)) { r.cls = PC_BLOCK; r.id = bl.id; r.disp = bl.disp; r.off = b - bl.p; return r; }
+    for (auto& bl : E.blocks) if (!bl.recycled && b >= bl.p && b < bl.p + (bl.size ? bl.size : 1)) { r.cls = PC_BLOCK; r.id = bl.id; r.disp = bl.disp; r.off = b - bl.p; return r; }
     if (rec) for (auto& bf : rec->bufs) if (b >= bf.p && b < bf.p + bf.n) { r.cls = PC_BUF; r.id = bf.id; r.off = b - bf.p; return r; }
     return r;
 }
@@ -160,8 +160,20 @@ static void* do_alloc(int gen, size_t n, bool via_libc) {
         int ord = rec->nalloc++;
         bool fail = ord < 64 && ((rec->op.fail >> ord) & 1);
         if (fail) { e.failed = true; rec->alloc_failed = true; E.stats.add("fault_alloc_fail"); return; }
-        u8* p = (u8*)malloc(n ? n : 1);
-        Block b; b.id = (int)E.blocks.size(); b.p = p;
+        u8* base = nullptr; u8* p = nullptr;
+        if (E.lifo_reuse && E.last_freed >= 0 && E.blocks[E.last_freed].size == n && !E.blocks[E.last_freed].recycled) {
+            // like a LIFO free list: the next request of that size gets the address released last
+            Block& old = E.blocks[E.last_freed];
+            old.recycled = true; base = old.base; p = old.p; old.base = nullptr;
+            unpoison(p, n);
+            E.stats.add("fault_address_reused");
+        } else {
+            base = (u8*)malloc((n ? n : 1) + 16);
+            p = base;
+            if (E.misalign) { p = base + 8; E.stats.add("fault_block_8_aligned_only"); }      // malloc returns 16-aligned memory
+        }
+        E.last_freed = -1;
+        Block b; b.id = (int)E.blocks.size(); b.p = p; b.base = base; b.recycled = false;
         int tk = t ? t->id : MAXT;
         b.disp = (tk << 16) | (E.task_blk_seq[tk]++ & 0xFFFF); b.size = n; b.task = t ? t->id : -1; b.op = rec->idx; b.live = true;
         b.via_libc = via_libc; b.freed_op = -1; b.zero_at_free = false; b.wiped_by_memzero = false;
@@ -199,6 +211,7 @@ static void do_free(int gen, void* p, bool via_libc) {
         e.n = (z ? 1 : 0) | (b.wiped_by_memzero ? 2 : 0);
         memset(b.p, 0xDD, b.size);
         poison(b.p, b.size);       // quarantined until the end of the run: use after free stays visible
+        E.last_freed = b.id;
     });
 }
 
@@ -392,8 +405,9 @@ void make_deps(polyseed_dependency* d, int gen, unsigned opt) {
 }
 
 void reset_run() {
-    for (auto& b : E.blocks) { unpoison(b.p, b.size); free(b.p); }
+    for (auto& b : E.blocks) if (b.base) { unpoison(b.p, b.size); free(b.base); }
     E.blocks.clear();
+    E.last_freed = -1;
     memset(E.task_blk_seq, 0, sizeof E.task_blk_seq);
     E.coord_rec = nullptr;
     E.stray_events = 0;
@@ -429,20 +443,20 @@ void monitor_access(const void* addr, unsigned size, bool store) {
     for (int i = 0; i < ntasks; ++i) {
         Task* x = &tasks[i];
         if (x != t && b >= x->stack_lo && b < x->stack_lo + x->stack_size) {
-            if (!E.mon_violation.found) { E.mon_violation.found = true; E.mon_violation.oracle = "O"; E.mon_violation.cls = "foreign-stack";
+            if (!E.mon_violation.found && E.report_ownership) { E.mon_violation.found = true; E.mon_violation.oracle = "O"; E.mon_violation.cls = "foreign-stack";
                 E.mon_violation.msg = strf("task %d %s %u bytes on the stack of task %d", t->id, store ? "stores" : "loads", size, i); }
             return;
         }
     }
-    for (auto& bl : E.blocks) if (b >= bl.p && b < bl.p + bl.size) {
-        if (bl.task != t->id && bl.task >= 0 && !E.mon_violation.found) {
+    for (auto& bl : E.blocks) if (!bl.recycled && b >= bl.p && b < bl.p + bl.size) {
+        if (bl.task != t->id && bl.task >= 0 && !E.mon_violation.found && E.report_ownership) {
             E.mon_violation.found = true; E.mon_violation.oracle = "O"; E.mon_violation.cls = "foreign-block";
             E.mon_violation.msg = strf("task %d %s %u bytes in block #%d owned by task %d", t->id, store ? "stores" : "loads", size, bl.id, bl.task);
         }
         return;
     }
     for (auto& kv : E.owned_bufs) if (b >= kv.p && b < kv.p + kv.n) {
-        if (kv.id != t->id && !E.mon_violation.found) {
+        if (kv.id != t->id && !E.mon_violation.found && E.report_ownership) {
             E.mon_violation.found = true; E.mon_violation.oracle = "O"; E.mon_violation.cls = "foreign-buffer";
             E.mon_violation.msg = strf("task %d %s %u bytes in a caller buffer of task %d", t->id, store ? "stores" : "loads", size, kv.id);
         }
@@ -458,7 +472,7 @@ void monitor_access(const void* addr, unsigned size, bool store) {
         for (int u = 0; u < ntasks && u < MAXT; ++u) {
             if (u == t->id) continue;
             u8 conflict = store ? ((G.r[u] | G.w[u]) & m) : (G.w[u] & m);
-            if (conflict && !E.mon_violation.found) {
+            if (conflict && !E.mon_violation.found && E.report_races) {
                 E.mon_violation.found = true; E.mon_violation.oracle = "R"; E.mon_violation.cls = "data-race";
                 const char* where = ((const char*)addr >= pseudo_state && (const char*)addr < pseudo_state + 8) ?
                     "the hidden static state of a non-reentrant C library function (strtok/localtime/strerror/setlocale family)" : "a static object of the library";
@@ -466,7 +480,12 @@ void monitor_access(const void* addr, unsigned size, bool store) {
                     store ? "store" : "load", t->id, (G.w[u] & m) ? "store" : "load", u, where, t->cur ? OP_NAMES[t->cur->op.kind] : "?");
             }
         }
-        if (store) { G.w[t->id] |= m; E.shared_stores++; if (E.write_chase && t->preemptible && E.sched_rng.chance(1, 2)) t->countdown = 1; } else G.r[t->id] |= m;
+        // access-chasing: leave a task right after it stored to shared memory, or right after it loaded something that was
+        // stored during this phase (the instant at which a check-then-act or a torn multi-word read goes wrong)
+        bool written_before = false;
+        for (int u = 0; u < ntasks && u < MAXT; ++u) if (G.w[u] & m) written_before = true;
+        if (store) { G.w[t->id] |= m; E.shared_stores++; } else G.r[t->id] |= m;
+        if (E.write_chase && t->preemptible && (store || written_before) && E.sched_rng.chance(1, 2)) t->countdown = 1;
         k += cnt;
     }
 }
